@@ -80,7 +80,7 @@ def run(prop, tier):
     r = vlib.tlc(SPEC, 'KmacPad', vlib.cfg({'MaxKey': 1200, 'Fixed': True}, invariants=['Holds', 'Emit']), name='kpad')
     if not r.ok:
         raise vlib.Undecided('KmacPad: %s %s' % (r.violated, r.error))
-    ck.add_states(r, 'KMAC bytepad lengths, key length 0..1200')
+    ck.add_states(r, 'KMAC bytepad lengths, key length 0..1200 and windows around 8192 and 2097152 (longer length headers)')
     boundary = tlc_cases(r.out)[0]['boundary']
     neg = vlib.tlc(SPEC, 'KmacPad', vlib.cfg({'MaxKey': 400, 'Fixed': False}, invariants=['Holds']), name='kpadneg')
     if 'Holds' not in neg.violated:
@@ -88,7 +88,7 @@ def run(prop, tier):
     ck.cov['negative_controls'] = 1
     for algo, rate in [('SHA3_256', 136), ('Keccak_256', 136), ('SHA3_384', 104), ('SHA2_256', 64), ('SHA2_384', 128)]:
         jobs.append({'kind': 'sweep', 'algo': algo, 'maxlen': 4 * rate, 'three': 2000 if tier == 'quick' else 3000000, 'seed': seed})
-    jobs.append({'kind': 'kmac', 'boundary': [b for b in boundary if b <= 700], 'seed': seed, 'dense': tier == 'thorough'})
+    jobs.append({'kind': 'kmac', 'boundary': [b for b in boundary if b <= 700 or b > 1200], 'seed': seed, 'dense': tier == 'thorough'})
     vh = vlib.build_vh()
     jp = os.path.join(vlib.subdir('scripts'), 'hash.ndjson')
     with open(jp, 'w') as f:
